@@ -274,6 +274,35 @@ harnesses! {
     fn c02_t_eq_owned_dna_o31_n2_y0 [4] { eq_owned!(Dna, 64, 31, 2, 0, 2) }
     fn c02_t_eq_owned_amino_o10_n2_y0 [4] { eq_owned!(Amino, 21, 10, 2, 0, 2) }
 
+    fn c02_q_eq_seq_seq_after_truncate [5] {
+        // owned == owned, one side shortened in place (its storage word keeps stale bits past the end)
+        let w = any_words::<2>();
+        let src = arr::<Dna, 64, 2>(w);
+        let mut a = owned_cap(&src, 0, 4, 4);
+        a.truncate(2);
+        let b = owned_cap(&src, 20, 2, 2);
+        let same = bits_at(&w, 0, 4) == bits_at(&w, 40, 4);
+        reach!(same, "equal");
+        reach!(!same, "different");
+        assert!((a == b) == same, "C02.eq.seq_vs_seq");
+        assert!((&a == b) == same, "C02.eq.ref_seq_vs_seq");
+        assert!((a == &b) == same, "C02.eq.seq_vs_ref_seq");
+        core::mem::forget(a);
+        core::mem::forget(b);
+    }
+    fn c02_q_hash_seq_after_truncate [12] {
+        // equal owned sequences feed identical hasher input whatever their history
+        let w = any_words::<2>();
+        let src = arr::<Dna, 64, 2>(w);
+        let mut a = owned_cap(&src, 0, 4, 4);
+        a.truncate(2);
+        let b = &src[0..2];
+        let (ha, hb) = (stream_of(&a), stream_of(b));
+        assert!(ha.n == hb.n, "C02.hash.seq_stream_length_eq_slice");
+        assert!(same_stream(&ha, &hb), "C02.hash.seq_stream_eq_slice");
+        reach!("end");
+        core::mem::forget(a);
+    }
     fn c02_q_hash_windows_dna_n3 [20] { hash_windows::<Dna, 64, 2>(3); }
     fn c02_q_hash_windows_amino_n1 [20] { hash_windows::<Amino, 21, 2>(1); }
     fn c02_t_hash_windows_dna_n0 [20] { hash_windows::<Dna, 64, 2>(0); }
